@@ -5,6 +5,7 @@ CONSTANTS
   Alpha = "t2"
   MaxLen = 4
   MaxDepth = 5
+  Lax = FALSE
 INVARIANTS Lattice WellNested ContentModelOK DocOrder RefOK
 CONSTRAINT Emit
 CHECK_DEADLOCK FALSE
